@@ -74,6 +74,16 @@ def ms1(p, res):
                         verdict = "re-view"
                 elif any((f.callee_def(f.blocks[r[1]]["t"]) or {}).get("n") in ("alloc_aligned", "alloc_aligned_custom", "alloc_bytes", "new", "from_vec") for r in calls):
                     verdict = "alloc"
+                    # the allocation must cover the advertised capacity: bytes_of(.., max_size) when the literal has a max_size, else bytes_of(.., size)
+                    cap = dpoly.get("max_size", dpoly.get("size"))
+                    for r in calls:
+                        t2 = f.blocks[r[1]]["t"]
+                        if (f.callee_def(t2) or {}).get("n") not in ("alloc_aligned", "alloc_aligned_custom", "alloc_bytes") or not t2["a"] or cap is None:
+                            continue
+                        ln = sym.operand(t2["a"][0])
+                        bo = [a for a in ln.atoms() if a[0] == "f" and a[1] in ("bytes_of", "bytes_of_from_infos") or (a[0] == "f" and a[1].startswith("bytes_of_"))]
+                        if len(bo) == 1 and len(ln.t) == 1 and cap.key() not in bo[0][2]:
+                            verdict, why = "violation", "the buffer is allocated for %r but the literal advertises a capacity of %r limbs" % (ln, cap)
                 elif any((f.callee_def(f.blocks[r[1]]["t"]) or {}).get("n") in ("index", "index_mut", "split_at_mut", "split_at", "cast_slice", "cast_slice_mut", "get", "get_mut", "chunks_exact", "at", "at_mut") for r in calls):
                     verdict = "checked-subslice"
                 elif any((f.callee_def(f.blocks[r[1]]["t"]) or {}).get("n", "").startswith("take_slice") for r in calls):
